@@ -176,6 +176,17 @@ static void l3_labels(long shard, void *arg) {
         check_domain("L3hyphen", t, l); MC_ADD(C_L3, 1);
         t[l++] = '.'; check_domain("L3hyphen", t, l); MC_ADD(C_L3, 1);
     }
+    /* a RUN of 2-4 hyphens at every position (xn--..., a---b): a scanner that steps over the run at once must still count every character of it */
+    if (len >= 4 && (len <= 8 || len >= 58)) for (int run = 2; run <= 4; run++) for (int h = 1; h + run < len; h++) {
+        size_t l = 0;
+        for (int i = 0; i < nl; i++) {
+            if (i) t[l++] = '.';
+            size_t s0 = l; l += put_label(t + l, i == pos ? len : 3, 0);
+            if (i == pos) { for (int k = 0; k < run; k++) t[s0 + (size_t)(h + k)] = '-'; if (h == 2 && run == 2) { t[s0] = 'x'; t[s0 + 1] = 'n'; } }
+        }
+        check_domain("L3hyphenrun", t, l); MC_ADD(C_L3, 1);
+        t[l++] = '.'; check_domain("L3hyphenrun", t, l); MC_ADD(C_L3, 1);
+    }
 }
 /* total length: shard = total 235..262 ; last label length 1..63 ; with/without root dot; filler labels of 63/62/1 */
 static void l3_total(long shard, void *arg) {
